@@ -26,7 +26,12 @@ SUBST = {
     "h5py": "engine.symh5",
     "scipy.sparse": "engine.symsp",
     "multiprocess": "engine.symmp",
+    "fractions": "engine.symfractions",
+    "decimal": "engine.symfractions",
 }
+
+# per-module substitutions (module name below the package -> {real module: shim})
+SUBST_BY_MODULE = {"util": {"re": "engine.symre"}}
 
 # relpath (under src/cooler) -> list of (old, new) textual substitutions, applied in memory only
 MUTATIONS: dict[str, list[tuple[str, str]]] = {}
@@ -34,7 +39,13 @@ LOADED: dict[str, str] = {}  # relpath -> sha1 of the text that was compiled
 EXTRA_GLOBALS: dict[str, dict] = {}  # module name (without package) -> extra globals
 
 
+_CURRENT = [None]
+
+
 def _subst(name):
+    extra = SUBST_BY_MODULE.get(_CURRENT[0], {})
+    if name in extra:
+        return extra[name]
     best = None
     for k in SUBST:
         if name == k or name.startswith(k + "."):
@@ -96,6 +107,7 @@ class Finder(importlib.abc.MetaPathFinder, importlib.abc.Loader):
                 raise MutationError(f"mutation target not found in {rel}: {old!r}")
             text = text.replace(old, new, 1)
         LOADED[rel] = hashlib.sha1(text.encode()).hexdigest()
+        _CURRENT[0] = module.__name__[len(PKG):].lstrip(".")
         tree = _Rewrite().visit(ast.parse(text, path))
         ast.fix_missing_locations(tree)
         module.__file__ = path
